@@ -141,15 +141,32 @@ def gen_history(rng, nkeys):
             ops.append(("load", fi))
             if rng.random() < 0.6:
                 ops.append(("load", fi))          # the same file again: must change nothing
-        elif r < 0.7:
+        elif r < 0.6:
             ops.append(("add", gen_name(rng), rng.randrange(nkeys)))
-        elif r < 0.85:
+        elif r < 0.72:
+            # hostkeys[name][type] = key   (a name that occurs in the files most of the time)
+            ops.append(("subset", pick_name(rng, files), rng.randrange(nkeys)))
+            if rng.random() < 0.7:
+                ops.append(("save-reload",))
+        elif r < 0.8:
+            # hostkeys[name] = {type: key, ...}
+            ops.append(("setitem", pick_name(rng, files), [rng.randrange(nkeys) for _ in range(rng.choice([1, 1, 2]))]))
+            if rng.random() < 0.7:
+                ops.append(("save-reload",))
+        elif r < 0.88:
             ops.append(("del", gen_name(rng)))
-        elif r < 0.9:
+        elif r < 0.92:
             ops.append(("clear",))
         else:
             ops.append(("save-reload",))
     return files, ops
+
+
+def pick_name(rng, files):
+    names = [n for f in files for ln in f if ln[0] == "entry" for n in ln[1]]
+    if names and rng.random() < 0.8:
+        return rng.choice(names)
+    return gen_name(rng)
 
 
 # ---------------------------------------------------------------- running a history on the real code
@@ -189,7 +206,7 @@ def run(ctx):
     ctx.rule = ("histories of 2..14 operations (load of one of 1..3 generated known_hosts files — 1..8 lines: plain "
                 "and hashed names, multi-host lines, repeated hosts, 10 keys of 4 types, comments, short/unknown-type/"
                 "wrong-blob/marker lines, invalid base64 — with the same file loaded twice in a row 60% of the time, "
-                "add, delete, clear, save+reload) observed after every operation through lookup/check/keys for 8 host "
+                "add, delete, clear, hostkeys[name][type] = key, hostkeys[name] = {type: key}, save+reload) observed after every operation through lookup/check/keys for 8 host "
                 "names in plain and hashed form. distinct = distinct histories; non-trivial = a file is loaded twice")
     ctx.trust("re.split, base64, the key classes' parsing/serialisation (key = type name + public blob; "
               "from_line(to_line(e)) = e is validated by the correspondence), list.remove semantics")
@@ -252,6 +269,26 @@ def run(ctx):
                         what = {"op": "clear"}
                         reqs.append("clear")
                         hk.clear()
+                        expects.append(("ok", what))
+                    elif op[0] == "subset":
+                        sname = name_str(op[1], HostKeys.hash_host)
+                        k = keys[op[2]]
+                        what = {"op": "hostkeys[name][type] = key", "name": sname, "type": k.get_name()}
+                        reqs.append("subset %s %s %s" % (name_tok_from_str(sname), hx(k.get_name().encode()), key_tok(k)))
+                        try:
+                            hk[sname][k.get_name()] = k
+                            expects.append(("ok", what))
+                        except KeyError:
+                            expects.append(("keyerror", what))
+                    elif op[0] == "setitem":
+                        sname = name_str(op[1], HostKeys.hash_host)
+                        d = {}
+                        for ki in op[2]:
+                            d[keys[ki].get_name()] = keys[ki]
+                        what = {"op": "hostkeys[name] = {type: key}", "name": sname, "types": list(d)}
+                        reqs.append("setitem %s %s" % (name_tok_from_str(sname), ",".join(
+                            "%s=%s" % (hx(t.encode()), key_tok(k)) for t, k in d.items())))
+                        hk[sname] = d
                         expects.append(("ok", what))
                     else:
                         continue
@@ -337,6 +374,13 @@ def run(ctx):
                             pass
                     elif op[0] == "clear":
                         hk.clear()
+                    elif op[0] == "subset":
+                        try:
+                            hk[name_str(op[1], HostKeys.hash_host)][keys[op[2]].get_name()] = keys[op[2]]
+                        except KeyError:
+                            pass
+                    elif op[0] == "setitem":
+                        hk[name_str(op[1], HostKeys.hash_host)] = {keys[ki].get_name(): keys[ki] for ki in op[2]}
                     elif op[0] == "save-reload":
                         hk.save(path2)
                         fresh = HostKeys(path2)
@@ -409,15 +453,16 @@ META = {
               "gives the same effective key for every name and type, the same check() answers, and never raises "
               "(save_reload_lookup, save_reload_check, nameMatches_trans); loading the same file again leaves the whole "
               "table — hence lookups, key lists, keys() and the saved text — unchanged, any number of times "
-              "(load_idempotent, load_idempotent_n). The model is load() as repaired by the two fix commits; it is tied "
+              "(load_idempotent, load_idempotent_n); hostkeys[name][type] = key takes effect in memory and after save+reload "
+              "(subSet_effective). The model is load() as repaired by the two fix commits; it is tied "
               "to hostkeys.py by differential runs of random histories (all entries, lookups, check, keys compared "
               "after every operation)."),
     "note": ("Trusted: Lean kernel + 3 standard axioms; the harness; re.split/base64 and the key classes (a key is its "
              "type name and public blob; from_line(to_line(e)) = e is exercised by the correspondence, not proved); "
              "HMAC-SHA1 is a model parameter (toy HMAC patched in for the correspondence run, real HMAC for the oracle "
              "run). Lines are handed to the model already classified (entry / skipped / raising InvalidHostKey). "
-             "SubDict mutation (__setitem__/__delitem__), HostKeys.__setitem__ and malformed hashed names are not "
-             "modelled. Observation outside the statement: an '@cert-authority …' line makes load() raise "
+             "SubDict.__delitem__ (no effect on the table), HostKeys.__setitem__ with an empty dict and malformed hashed "
+             "names are not modelled. Observation outside the statement: an '@cert-authority …' line makes load() raise "
              "InvalidHostKey (its third field is not base64), which is not an SSHException and escapes load()."),
     "technique": "Lean 4 proof (append-only table invariants; reload simulation lemma) + differential correspondence on random histories",
 }
